@@ -302,7 +302,7 @@ func (c *c52Case) decl(fn string) string {
 
 // predict returns the acceptable outcomes (more than one only where the
 // moment of a bounds failure is not fixed by the property).
-func (c *c52Case) predict() []outcome {
+func (c *c52Case) predict() (res []outcome) {
 	run := func(late uint) (o outcome) {
 		s := &sx{slots: c.Slots, bases: c.bases(), late: late}
 		defer func() {
@@ -327,6 +327,15 @@ func (c *c52Case) predict() []outcome {
 		sites = stmtFormByName[c.Form].Sites
 	}
 	var out []outcome
+	defer func() {
+		if p := recover(); p != nil {
+			if _, ok := p.(outOfModel); ok {
+				res = nil // not in the space
+				return
+			}
+			panic(p)
+		}
+	}()
 	seen := map[string]bool{}
 	for late := uint(0); late < 1<<sites; late++ {
 		o := run(late)
